@@ -396,6 +396,34 @@ static void deviation_streams(int k2)
 						}
 		}
 	}
+	/* more files than the buffer table holds (16): open 19, walk back through them, edit, delete buffers */
+	{
+		static char ecmd[19][16];
+		const char *ts[64];
+		static const char *tails[][7] = {
+			{":b\n", ":b 1\n", "dd", ":b -\n", ":b 16\n", ":e g1\n", ":q!\n"},
+			{"\x1e", "x", ":e #\n", ":b !\n", ":b +\n", ":e g18\n", ":b\n"},
+			{":b ~\n", ":b 17\n", ":b !\n", ":b !\n", ":e g3\n", ":b\n", "u"},
+		};
+		int v;
+		for (i = 0; i < 19; i++)
+			snprintf(ecmd[i], sizeof(ecmd[i]), ":e! g%d\n", i + 1);
+		for (v = 0; v < 3; v++)
+			for (n = 15; n <= 19; n++) {
+				int m = 0;
+				if ((idx++ % nv_nshards) != nv_shard || nv_expired_now())
+					continue;
+				ts[m++] = "ifoo" ESC;		/* the first buffer is modified */
+				for (i = 0; i < n; i++) {
+					ts[m++] = ecmd[i];
+					if (i == 7)
+						ts[m++] = "ibar" ESC;	/* and one in the middle */
+				}
+				for (i = 0; i < 7; i++)
+					ts[m++] = tails[v][i];
+				run_stream(ts, m, "more files than buffer slots");
+			}
+	}
 	nv_stat("stream_executions", stream_runs);
 	nv_stat("transitions", stream_runs);
 	nv_stat("states", stream_runs);
